@@ -263,6 +263,8 @@ class PyVal:
             out = None
             for op, c in zip(node.ops, node.comparators):
                 rv = self._v(c, env)
+                if isinstance(op, (ast.In, ast.NotIn)) and getattr(getattr(rv, "func", None), "__name__", "") == "keysof":
+                    rv = rv.args[0]
                 t = F("cmp_" + type(op).__name__)(l, rv)
                 out = t if out is None else mk_bool("band", [out, t])
                 l = rv
@@ -397,6 +399,18 @@ class PyVal:
 
     def _call_value(self, node, env, name, args, kwv):
         short = name.split(".")[-1]
+        # type-directed idioms that mean the same for the dicts / arrays they are applied to in this library
+        f0 = node.func
+        if isinstance(f0, ast.Attribute) and not node.args and not node.keywords and f0.attr in ("copy", "keys") \
+                and name.split(".")[0] not in ("np", "numpy", "copy"):
+            recv = self._v(f0.value, env)
+            return F("copyof" if f0.attr == "copy" else "keysof")(recv)
+        if not kwv and len(args) == 1:
+            a0 = args[0]
+            if name in ("dict", "copy.copy", "copy"):
+                return F("copyof")(a0)
+            if getattr(getattr(a0, "func", None), "__name__", "") == "keysof" and name in ("list", "sorted", "set", "tuple", "len", "iter", "enumerate", "frozenset"):
+                args = [a0.args[0]]
         if isinstance(node.func, ast.Name) and node.func.id in env and env[node.func.id] != sym(node.func.id) \
                 and node.func.id not in self.inline:
             # a local name bound to a function value (lambda, nested def, table lookup): the value is what is called
@@ -798,6 +812,8 @@ class PyVal:
         saved_views = dict(self.views)
         try:
             head = self.value(st.iter, env) if targets or isinstance(st, (ast.For, ast.AsyncFor)) else None
+            if head is not None and getattr(getattr(head, "func", None), "__name__", "") == "keysof":
+                head = head.args[0]
             iter_root = self._view_root(st.iter) if isinstance(st, (ast.For, ast.AsyncFor)) else None
             if isinstance(st, (ast.For, ast.AsyncFor)) and isinstance(st.iter, ast.Call):
                 # enumerate(x) / zip(x, y) / x.items() / sorted(x) ...: elements still belong to the first named argument
